@@ -166,7 +166,8 @@ Definition read_string (vt : option tyc) (lst : option (larm * lpay)) (j5 : opti
                 else Ok (TKey (match fmt with
                                | Some SfUuid => Some KUuid
                                | Some SfId62 => Some KId62
-                               | Some SfNatural => Some KInformal
+                               (* natural_key yields to a format the key annotation states (fix 240b498) *)
+                               | Some SfNatural => match j5 with Some (XKey (Some f)) => Some f | _ => Some KInformal end
                                (* otherwise what the key annotation says *)
                                | Some SfDate | Some SfNumber | None => match j5 with Some (XKey f) => f | _ => None end
                                end)
@@ -182,6 +183,10 @@ Definition read_string (vt : option tyc) (lst : option (larm * lpay)) (j5 : opti
                                end)
                               fkrules)
             end)).
+
+(* the schema name of a message: its path inside the package with '.' replaced by '_'
+   (a message Foo.Bar nested in Foo is the schema Foo_Bar) *)
+Definition under (n : str) : str := map (fun c => if c =? 46 then 95 else c) n.
 
 (* ---- buildSchema: one field type from its annotations ---------------------- *)
 Definition read_field (env : enum_env) (k : pkind) (vt : option tyc) (lst : option (larm * lpay))
@@ -227,8 +232,8 @@ Definition read_field (env : enum_env) (k : pkind) (vt : option tyc) (lst : opti
       | _ => Ok (TAny false [] (get_list LAny lst))
       end
   (* buildMessageFieldSchema: (buf.validate.field) is not looked at for objects and oneofs *)
-  | KdMsgObject => Ok (TObject (match j5 with Some (XObject fl) => fl | _ => false end) None)
-  | KdMsgOneof => Ok (TOneof false (get_list LOneof lst))
+  | KdMsgObject n => Ok (TObject (under n) (match j5 with Some (XObject fl) => fl | _ => false end) None)
+  | KdMsgOneof n => Ok (TOneof (under n) false (get_list LOneof lst))
   | KdMapEntry _ | KdOther => Err "field kind outside the model"
   end.
 
@@ -342,8 +347,8 @@ Definition norm_fty (env : enum_env) (t : fty) : fty :=
   | TKey f e l => TKey f (match e with Some e => Some (norm_entity e) | None => None end) l
   | TTimestamp r l => TTimestamp (match r with Some r => Some (norm_ts r) | None => None end) l
   (* rules messages without content: present = absent *)
-  | TObject fl (Some (OBR None None)) => TObject fl None
-  | TOneof _ l => TOneof false l
+  | TObject n fl r => TObject (under n) fl (match r with Some (OBR None None) => None | _ => r end)
+  | TOneof n _ l => TOneof (under n) false l
   | t => t
   end.
 
@@ -354,7 +359,7 @@ Definition items_constrained (t : fty) : bool :=
   | TInt _ (Some _) _ | TStr _ (Some _) _ | TBytes (Some _) | TBool (Some _) _ => true
   | TEnum _ _ => true
   | TKey (Some _) _ _ => true
-  | TTimestamp (Some _) _ | TObject _ (Some _) | TOneof true _ => true
+  | TTimestamp (Some _) _ | TObject _ _ (Some _) | TOneof _ true _ => true
   | _ => false
   end.
 
@@ -400,7 +405,7 @@ Definition no_list (t : fty) : bool :=
   match t with
   | TInt _ _ None | TStr _ _ None | TBytes _ | TBool _ None | TEnum _ None | TKey _ _ None
   | TFloat _ _ None | TDate _ None | TDecimal _ None | TTimestamp _ None | TAny _ _ None
-  | TObject _ _ | TOneof _ None => true
+  | TObject _ _ _ | TOneof _ _ None => true
   | _ => false
   end.
 
@@ -409,9 +414,9 @@ Definition rt_fty (m : mode) (t : fty) : bool :=
   (match m with MMap => no_list t | _ => true end) &&
   match m, t with
   | _, TTimestamp (Some r) _ => negb (is_some (tsr_min r)) && negb (is_some (tsr_max r))   (* bounds are not written *)
-  | _, TObject _ (Some r) =>                 (* minProperties / maxProperties are not written *)
+  | _, TObject _ _ (Some r) =>                 (* minProperties / maxProperties are not written *)
       negb (is_some (obr_min r)) && negb (is_some (obr_max r))
-      && match m, t with MSingle, _ => true | _, TObject true _ => false | _, _ => true end
+      && match m, t with MSingle, _ => true | _, TObject _ true _ => false | _, _ => true end
   | _, TStr (Some _) _ _ => false            (* StringField.format is not written *)
   | _, TStr None (Some r) _ => pat_plain (sr_pat r)
   | _, TKey None e l =>
@@ -421,13 +426,19 @@ Definition rt_fty (m : mode) (t : fty) : bool :=
   | _, TKey (Some KUuid) _ _ | _, TKey (Some KId62) _ _ => true
   (* custom pattern / informal live in (j5.ext.v1.field).key, which array items and map values do not have *)
   | MSingle, TKey (Some KInformal) _ _ => true
-  (* a custom key with list rules is written as a unique_string foreign key, which reads back informal *)
-  | MSingle, TKey (Some (KCustom p)) _ l => negb (str_eqb p Id62Gen.pattern_string) && negb (is_some l)
+  (* ... but list rules (a unique_string foreign key, read as natural_key = informal) identify an informal key item *)
+  | MArray, TKey (Some KInformal) _ (Some _) => true
+  (* the custom pattern is also written as the validation pattern: the reader's well-known id62
+     pattern turns the key into key:id62; with list rules (a unique_string foreign key) any
+     well-known pattern makes the reader fail *)
+  | MSingle, TKey (Some (KCustom p)) _ l =>
+      negb (str_eqb p Id62Gen.pattern_string)
+      && (negb (is_some l) || (negb (str_eqb p date_pattern) && negb (str_eqb p number_pattern)))
   | _, TKey (Some _) _ _ => false
   | MSingle, _ => true
   (* inside an array or a map there is no (j5.ext.v1.field) of the item *)
   | _, TDate (Some _) _ | _, TDecimal (Some _) _ => false
-  | _, TObject true _ => false
+  | _, TObject _ true _ => false
   | _, TAny od ts _ => negb od && match ts with [] => true | _ => false end
   | _, _ => true
   end.
@@ -469,3 +480,13 @@ Definition read_root (env : enum_env) (o : root_out) : outcome rroot :=
 
 (* the fragment at root level: the description survives commentDescription, the properties lie in rt_ok *)
 Definition rt_root (d : root_decl) : bool := desc_plain (rd_desc d) && forallb rt_ok (rd_props d).
+
+(* the declared schema of an object's properties / of a root schema, from the declaration alone *)
+Fixpoint norm_props_from (env : enum_env) (idx : N) (ds : list prop) : list rprop :=
+  match ds with
+  | [] => []
+  | d :: r => norm_prop env idx d :: norm_props_from env (idx + 1)%N r
+  end.
+Definition norm_object (env : enum_env) (ds : list prop) : list rprop := norm_props_from env 0%N ds.
+Definition norm_root (env : enum_env) (d : root_decl) : rroot :=
+  RR (rd_kind d) (rd_name d) (rd_desc d) (norm_object env (rd_props d)).
